@@ -136,6 +136,8 @@ pub struct Ctx {
     pub threads: usize,
     /// wall clock cap in seconds for one `run` call; cases beyond it are not started
     pub cap_s: f64,
+    /// set when the machinery itself failed (vacuous exploration, engine crash): exit 2, never a verdict
+    pub machinery_error: Option<String>,
 }
 
 impl Ctx {
@@ -159,6 +161,7 @@ impl Ctx {
             extra: BTreeMap::new(),
             threads,
             cap_s: tier.pick(300.0, 3600.0),
+            machinery_error: None,
         }
     }
 
@@ -405,7 +408,13 @@ pub fn finish(ctx: Ctx, verif_dir: &str) -> i32 {
     for (i, (n, k)) in &known_hit {
         println!("KNOWN-FINDING: property={} {} ({} hits, pattern {}, e.g. {})", ctx.id, findings.items[*i].2, n, findings.items[*i].1, k);
     }
-    if machinery_fail {
+    if let Some(m) = &ctx.machinery_error {
+        println!("MACHINERY-ERROR: {m}");
+        if new_violations.is_empty() {
+            return 2;
+        }
+    }
+    if machinery_fail && new_violations.is_empty() {
         println!("MACHINERY-ERROR: nothing was explored (cases_run={}, evaluations={})", ctx.cases_run, ctx.total.evaluations);
         return 2;
     }
